@@ -20,6 +20,7 @@ func c19(r *core.Run) {
 	r.Rule("C19/R1", "completeness: every prefix written by transactions or block processing is written by InitGenesis and read by ExportGenesis, or is a derived index co-written with an exported prefix at every write site")
 	r.Rule("C19/R2", "typed round trip: a prefix read by ExportGenesis and written by InitGenesis holds exactly one type (C18/R1 for that prefix)")
 	r.Rule("C19/R4", "genesis validation: each duplicate-index map of GenesisState.Validate is used for exactly one record kind")
+	r.Rule("C19/R5", "exhaustive export: no function reachable from ExportGenesis uses the SDK pagination helpers (bounded by a default page size), and every iterator loop there is left only when the iterator is exhausted (or by a panic)")
 	r.Rule("C19/R3", "field pairing: every GenesisState field is assigned in ExportGenesis and read in InitGenesis")
 	hs, err := p.Handlers()
 	if err != nil {
@@ -29,6 +30,7 @@ func c19(r *core.Run) {
 	bb, eb := p.BlockEntries()
 	pt := p.PrefixTypes(consensusFuncs(p))
 	nW := 0
+	nIter := 0
 	for _, m := range core.CustomModules {
 		initFn, expFn := p.GenesisEntries(m)
 		if initFn == nil || expFn == nil {
@@ -79,6 +81,45 @@ func c19(r *core.Run) {
 					miss = append(miss, "InitGenesis never writes it")
 				}
 				r.Violation("C19/R1", "genesis-omits:"+name, p.Pos(expFn.Pos()), fmt.Sprintf("records under %q are written by {%s} but %s: export followed by import loses them", name, writers, strings.Join(miss, " and ")))
+			}
+		}
+		// R5 exhaustive enumeration on the export path
+		for _, fn := range p.Summary(expFn).Funcs {
+			allInstrs(fn, func(in ssa.Instruction) {
+				call, ok := in.(ssa.CallInstruction)
+				if !ok {
+					return
+				}
+				if ext := core.ExtCallee(call); ext != nil && ext.Pkg != nil && strings.HasSuffix(ext.Pkg.Pkg.Path(), "cosmos-sdk/types/query") {
+					r.Violation("C19/R5", m+":export-paginated:"+fn.Name(), p.InstrPos(call), "ExportGenesis reaches "+ext.Name()+" of the SDK query package: a nil page request means the default page size (100 records), so the export silently stops after the first page")
+				}
+			})
+			// iterator loops leave only through Valid()=false (or a panic)
+			for _, b := range fn.Blocks {
+				ifi, ok := b.Instrs[len(b.Instrs)-1].(*ssa.If)
+				if !ok {
+					continue
+				}
+				vc, ok := ifi.Cond.(*ssa.Call)
+				if !ok || !vc.Call.IsInvoke() || vc.Call.Method.Name() != "Valid" {
+					continue
+				}
+				nIter++
+				for _, lb := range fn.Blocks {
+					if !core.SameLoop(lb, b) {
+						continue
+					}
+					for _, sc := range lb.Succs {
+						if core.SameLoop(sc, b) || lb == b {
+							continue
+						}
+						if endsInPanicOrFailure(p, fn, sc) {
+							continue
+						}
+						r.Violation("C19/R5", m+":export-loop-exits-early:"+fn.Name(), p.InstrPos(lb.Instrs[len(lb.Instrs)-1]), "an iteration on the export path can end before the iterator is exhausted: records after that point are not exported")
+					}
+				}
+				r.Ok("C19/R5", m+":export-loop:"+fn.Name(), p.InstrPos(ifi), "iteration ends only when the iterator is exhausted")
 			}
 		}
 		// R2
@@ -135,6 +176,7 @@ func c19(r *core.Run) {
 		}
 	}
 	r.Floor("C19/R1", nW, 18, "record kinds written by transactions")
+	r.Floor("C19/R5", nIter, 10, "iterator loops on export paths")
 	// ---- R4 genesis validation keeps one duplicate-index map per record kind
 	nMaps := 0
 	for _, m := range core.CustomModules {
@@ -253,4 +295,26 @@ func derivedIndex(p *core.Program, m, pre string, exported map[string]bool) bool
 		}
 	}
 	return ok
+}
+
+// endsInPanicOrFailure: control entering b runs straight into a panic or a failing return (non-nil error).
+func endsInPanicOrFailure(p *core.Program, fn *ssa.Function, b *ssa.BasicBlock) bool {
+	for hops := 0; hops < 8; hops++ {
+		switch last := b.Instrs[len(b.Instrs)-1].(type) {
+		case *ssa.Panic:
+			return true
+		case *ssa.Return:
+			for _, ri := range p.Returns(fn) {
+				if ri.Ret == last {
+					return ri.Class == core.RetFail
+				}
+			}
+			return false
+		case *ssa.Jump:
+			b = b.Succs[0]
+		default:
+			return false
+		}
+	}
+	return false
 }
